@@ -10,6 +10,7 @@ import (
 	"github.com/ipfs/go-unixfsnode/hamt"
 	dagpb "github.com/ipld/go-codec-dagpb"
 	"github.com/ipld/go-ipld-prime"
+	"github.com/ipld/go-ipld-prime/adl"
 )
 
 // Reify looks at an ipld Node and tries to interpret it as a UnixFSNode
@@ -25,6 +26,14 @@ func nonLazyReify(lnkCtx ipld.LinkContext, maybePBNodeRoot ipld.Node, lsys *ipld
 
 func doReify(lnkCtx ipld.LinkContext, maybePBNodeRoot ipld.Node, lsys *ipld.LinkSystem, lazy bool) (ipld.Node, error) {
 	pbNode, ok := maybePBNodeRoot.(dagpb.PBNode)
+	if !ok && !lazy {
+		// a node that was already reified lazily (a LinkSystem whose
+		// NodeReifier is Reify hands those out) still has to be preloaded when
+		// the preloading view is asked for: start over from its substrate
+		if a, isADL := maybePBNodeRoot.(adl.ADL); isADL {
+			pbNode, ok = a.Substrate().(dagpb.PBNode)
+		}
+	}
 	if !ok {
 		return maybePBNodeRoot, nil
 	}
